@@ -81,6 +81,10 @@ SHAPES = {
     "oneof": ('{"oneOf": [{"minimum": 1}, {"type": "null"}], "default": d}', "lambda e: e", "lambda j: j", 1),
     "allof": ('{"allOf": [{"minimum": 1}, {"maximum": 5}], "default": d}', "lambda e: e", "lambda j: j", 1),
     "allof_single": ('{"allOf": [{"minimum": 1}], "default": d}', "lambda e: e", "lambda j: j", 1),
+    "trivial_allof": ('{"allOf": [{}], "default": d}', "lambda e: e", "lambda j: j", 1),
+    "trivial_anyof": ('{"anyOf": [True], "default": d}', "lambda e: e", "lambda j: j", 1),
+    "trivial_oneof_allof": ('{"oneOf": [{}], "allOf": [True, {}], "default": d}', "lambda e: e", "lambda j: j", 1),
+    "single_branch_simple_type": ('{"allOf": [{"type": "boolean"}], "default": d}', "lambda e: e", "lambda j: j", 1),
     "not": ('{"not": {"type": "null"}, "default": d}', "lambda e: e", "lambda j: j", 1),
     "typed_anyof": ('{"type": "integer", "anyOf": [{"minimum": 1}, {"maximum": -1}], "default": d}', "lambda e: e", "lambda j: j", 1),
     "two_comp": ('{"anyOf": [{"minimum": 1}, {"maximum": -1}], "not": {"const": 0}, "default": d}', "lambda e: e", "lambda j: j", 1),
@@ -94,6 +98,32 @@ SHAPES = {
     "addl_props": ('{"additionalProperties": {"type": ["integer", "null"], "default": d}}', "lambda e: e.additionalProperties", 'lambda j: j["additionalProperties"]', 1),
     "in_anyof_branch": ('{"anyOf": [{"type": "integer", "default": d}, {"type": "string"}]}', "lambda e: e.elements[0]", 'lambda j: j["anyOf"][0]', 1),
 }
+
+
+def siblings_trivial_ok(d1, d2):
+    """two properties, each a default next to an all-trivial composition, plus bare siblings of the same
+    kinds: every default stays on its own element, the bare ones get none, nothing is shared"""
+    from vf.common import parse_s, jeq, NotPassed
+
+    S = {"type": "object", "title": "T", "properties": {
+        "p": {"allOf": [{}], "default": d1},
+        "q": {"anyOf": [True], "default": d2},
+        "r": {"allOf": [{}]},
+        "b1": {"allOf": [{"type": "boolean"}], "default": d1},
+        "b2": {"type": "boolean"},
+        "n1": {"anyOf": [{"type": "null"}], "default": d2},
+        "n2": {"type": "null"}}}
+    el = parse_s(S)
+    g = lambda k: el.properties[k].element
+    for k, d in (("p", d1), ("q", d2), ("b1", d1), ("n1", d2)):
+        if isinstance(g(k).default, NotPassed) or not jeq(g(k).default, d):
+            return False
+    for k in ("r", "b2", "n2"):
+        if not isinstance(g(k).default, NotPassed):
+            return False
+    # a second, unrelated parse afterwards must not see anything of the first
+    again = parse_s({"properties": {"x": {"allOf": [{}]}, "y": {"type": "boolean"}, "z": {"type": "null"}}})
+    return all(isinstance(again.properties[k].element.default, NotPassed) for k in ("x", "y", "z"))
 
 
 def siblings_ok(d1, d2):
@@ -272,7 +302,7 @@ DOC_SAFE = "chr(92) not in s and chr(13) not in s and chr(0) not in s and not s.
 
 def harnesses(ctx) -> List[H]:
     hs: List[H] = []
-    quick = {"typed_int", "untyped", "typelist1", "typelist2", "anyof", "allof", "not", "object_class", "object_comp", "property", "property_comp", "item", "typed_anyof"}
+    quick = {"typed_int", "untyped", "typelist1", "typelist2", "anyof", "allof", "not", "object_class", "object_comp", "property", "property_comp", "item", "typed_anyof", "trivial_allof", "trivial_anyof", "single_branch_simple_type"}
     for name, (S, loc, jloc, nd) in SHAPES.items():
         body = f"""
 return default_ok({S}, d, {loc}, {jloc}, {nd})
@@ -281,6 +311,10 @@ return default_ok({S}, d, {loc}, {jloc}, {nd})
     hs.append(mk("c07_default_siblings", f"d1: Union[int, bool, None, List[int]], d2: Union[int, str, None, List[int]]",
                  ["not isinstance(d1, list) or len(d1) <= 1", "not isinstance(d2, list) or len(d2) <= 1", "not isinstance(d2, str) or len(d2) <= 1"],
                  "return siblings_ok(d1, d2)", timeout=60, group="default"))
+    hs.append(mk("c07_default_siblings_trivial", f"d1: Union[int, bool, None, List[int]], d2: Union[int, str, None, List[int]]",
+                 ["not isinstance(d1, list) or len(d1) <= 1", "not isinstance(d2, list) or len(d2) <= 1", "not isinstance(d2, str) or len(d2) <= 1"],
+                 "return siblings_trivial_ok(d1, d2)", timeout=120, group="default",
+                 covers="defaults next to all-trivial / single-branch compositions, bare siblings of the same kinds, and a later unrelated parse"))
     hs.append(mk("c07_default__reach", f"d: {DT}", DPRE,
                  'return not (isinstance(d, list) and default_ok({"type": "integer", "default": d}, d, lambda e: e, lambda j: j, 1))',
                  kind="witness", timeout=30, group="default"))
